@@ -413,14 +413,22 @@ def sendUnsolicited (s : State) (svc : Service) (now jitter : Nat) : Unsol :=
       reruns := u.state.reruns ++ u.intfs.map (fun i => .registerResend (now + 1000) svc.fullname i),
       timers := u.state.timers ++ u.intfs.map (fun _ => now + 1000) } }
 
+/-- `info.insert_ipaddr(&intf)` for every selected interface when `addr_auto` is on -/
+def autoAddrs (s : State) (svc : Service) : Service :=
+  if svc.addrAuto then { svc with addrs := dedupIps (svc.addrs ++ s.intfs.flatMap fun i => i.addrs.map (·.1)) } else svc
+
+/-- `register_service` after the name-length check -/
+def registerChecked (s : State) (svc : Service) (now jitter : Nat) : State × List Out :=
+  ({ (sendUnsolicited s svc now jitter).state with
+       services := aset (lower svc.fullname) (sendUnsolicited s svc now jitter).svc (sendUnsolicited s svc now jitter).state.services },
+   (sendUnsolicited s svc now jitter).outs ++
+     (if (sendUnsolicited s svc now jitter).addrs.isEmpty then []
+      else notify s (.announceAddrs svc.fullname (sendUnsolicited s svc now jitter).addrs)))
+
 /-- `register_service` -/
 def registerService (s : State) (svc0 : Service) (now jitter : Nat) : State × List Out :=
   match Names.checkServiceNameLength svc0.ty s.nameLenMax with
-  | .ok () =>
-    let svc := if svc0.addrAuto then { svc0 with addrs := dedupIps (svc0.addrs ++ s.intfs.flatMap fun i => i.addrs.map (·.1)) } else svc0
-    let u := sendUnsolicited s svc now jitter
-    ({ u.state with services := aset (lower svc.fullname) u.svc u.state.services },
-     u.outs ++ (if u.addrs.isEmpty then [] else notify s (.announceAddrs svc.fullname u.addrs)))
+  | .ok () => registerChecked s (autoAddrs s svc0) now jitter
   | _ => (s, notify s .error)
 
 /-! ### goodbye -/
